@@ -467,8 +467,15 @@ func textOf(class string, parts []part, s string, runnable bool) *Text {
 	return t
 }
 
-// Valid generates a valid text (half of them runnable).
+// Valid generates a valid text (half of them runnable, a few moderately nested).
 func (g *Gen) Valid() *Text {
+	return g.valid(true)
+}
+
+func (g *Gen) valid(allowNested bool) *Text {
+	if allowNested && g.R.Intn(12) == 0 {
+		return g.Nested()
+	}
 	runnable := g.R.Intn(2) == 0
 	parts := g.validParts(runnable, 4)
 	t := textOf(ClassValid, parts, g.assemble(parts), runnable)
@@ -553,7 +560,7 @@ func (g *Gen) randomToken() Token {
 // Mutant derives a near-valid text from one or two valid texts by token-level mutation.
 func (g *Gen) Mutant() *Text {
 	r := g.R
-	base := g.Valid()
+	base := g.valid(false)
 	ts := Tokenise(base.S)
 	var how []string
 	nm := 1 + r.Intn(3)
@@ -592,7 +599,7 @@ func (g *Gen) Mutant() *Text {
 			how = append(how, "truncate-tokens")
 			ts = ts[:i:i]
 		case 8: // splice: prefix of this text + suffix of another valid text
-			other := Tokenise(g.Valid().S)
+			other := Tokenise(g.valid(false).S)
 			j := 0
 			if len(other) > 0 {
 				j = r.Intn(len(other))
@@ -672,7 +679,7 @@ func (g *Gen) Raw() *Text {
 		}
 		t.S, t.How = string(b), "printable noise"
 	default: // a valid text with raw bytes sprinkled in (outside of our control where they land)
-		s := []byte(g.Valid().S)
+		s := []byte(g.valid(false).S)
 		for n := 1 + r.Intn(3); n > 0 && len(s) > 0; n-- {
 			p := r.Intn(len(s))
 			ins := []byte(pick(r, "#", "$", "~", "^", "%", "`", "\x00", "\xff", "\x80", "?", "'", "\\"))
